@@ -9,7 +9,7 @@ from pyvc import props as P
 
 KF = json.load(open(os.path.join(ROOT, "known_findings.json")))
 REVERTS = {"R-" + k["commit"]: k for k in KF if k.get("kind") == "fixed"}
-ids = sys.argv[1:] or (sorted(d for d in os.listdir(os.path.join(ROOT, "seeded")) if os.path.isdir(os.path.join(ROOT, "seeded", d)))
+ids = sys.argv[1:] or (sorted(d for d in os.listdir(os.path.join(ROOT, "seeded")) if os.path.isfile(os.path.join(ROOT, "seeded", d, "meta.json")))
                        + sorted(REVERTS))
 out = {}
 
